@@ -120,7 +120,7 @@ def nontrivial(case: Case, out: str) -> bool:
 
 
 def generate(rng: random.Random, tier: str):
-    n = 500 if tier == "quick" else 60000
+    n = 12000 if tier == "quick" else 100000
     out = []
     for i in range(n):
         kind = "spiral" if rng.random() < 0.6 else "ranked"
